@@ -16,6 +16,8 @@ func init() {
 }
 
 func runC10(r *engine.Run) {
+	r.Rule("DEP-weight", "see C09: in the branch arm of insert and delete the child's weight change is folded into the branch weight before every success return that follows the descent, and the returned change depends on it: the prover navigates by these weights and the verifier sums the children, so a stale branch weight makes honest proofs verify to another root")
+	r.Rule("DOM-dirty", "see C09: a store to a hashed field of a node (also a leaf's weight) marks the node dirty on every path: a leaf re-weighted with identical value bytes otherwise keeps its cached hash and honest proofs verify to a root other than Root()")
 	r.Rule("ORDER-recompute", "in every success arm of verifyProof the verified child (result of the recursive verification) is stored into the node, dirty=true is stored and CalcHash() is called on that node, all before the node is returned; VerifyBlockProof returns Hash() of exactly that node: no wire-provided hash reaches the result without being recomputed")
 	r.Rule("DOM-range", "verifyProof's value and shared-prefix arms succeed only when block > node.Weight() tested false; the branch arm descends only under block <= child.Weight(), carries block - skipped weight, and reports ErrWeightNotInRange when the children are exhausted")
 	r.Rule("AGREE-limits", "see C12: proof verification decodes with the same CBOR limits as the export importer (an honest proof of a full-depth path has one element more than the key has nibbles and must not be rejected for its size)")
@@ -54,6 +56,8 @@ func runC10(r *engine.Run) {
 	refFieldBuf(r, "REF-fieldbuf", funcsOfPkg(r, pkgWMPT))
 	domReject(r, "DOM-reject")
 	rejectKind(r, "DOM-reject")
+	depWeight(r)
+	domDirty(r)
 }
 
 func orderRecompute(r *engine.Run, f *ssa.Function) {
